@@ -12,7 +12,7 @@ def run(ctx):
                     "GenModel twin (harness/genmodel.h = Model/GenModel.lean), tied by every dispatched content and state digest",
                     "composition step (E) of DESIGN 3/C01 (global invariant of the product system) is NOT a theorem: it is covered by "
                     "re-executing sampled real runs on the model and comparing the result with the Lean sequential executor"]
-    ctx.assumptions += ["valid-model contract V1-V5 (DESIGN 2.8); GenModel instances satisfy it by construction",
+    ctx.assumptions += ["valid-model contract V1-V5 (DESIGN 2.8); GenModel instances satisfy V2-V4 on every invocation the runtime performs (proved: Props/GenModelContract.lean)",
                         "runs that end in the known shutdown deadlock F1 (C08) are compared up to the hang"]
     runlib.lean_part(ctx, "RootSim.Props.C01Sorted", THEOREMS)
     runlib.lean_part(ctx, "RootSim.Props.PrefixUnique", THEOREMS_D)
@@ -22,6 +22,10 @@ def run(ctx):
     # the same theorems for the machine with the straggler rule of the CODE (the ANTI bit of a doomed entry stops the backward scan:
     # Model/TimeWarpD.lean); Hist of the whole histories is refuted there, Hist/Progress hold for the untainted prefixes
     runlib.lean_part(ctx, "RootSim.Props.C01GlueD", ['RootSim.C01GlueD.twg_step_is_twd_step','RootSim.C01GlueD.reachable_invariant_D','RootSim.C01GlueD.below_bound_untainted','RootSim.C01GlueD.reachable_hist_D','RootSim.C01GlueD.reachable_progress_D','RootSim.C01GlueD.reachable_progress_D_literal','RootSim.C01GlueD.tw_equals_sequential_D','RootSim.C01GlueD.tw_quiescent_final_D','RootSim.C01GlueD.tw_schedule_independent_D','RootSim.C01GlueD.tw_committed_monotone_D','RootSim.C01GlueD.reachable_hist_D_literal_refuted','RootSim.C01GlueD.step_function_exact_D'])
+    # the GenModel family (the model every full-run correspondence executes) satisfies the contracts these theorems assume - in the
+    # relativised form (existing LP, model event or the LP's own LP_INIT; the literal V2s/V2 are refuted for the family), which is all
+    # the theorems need (Proofs/ClampTransfer.lean); instances of the end-to-end theorems for the family (Props/GenModelContract.lean)
+    runlib.lean_part(ctx, "RootSim.Props.GenModelContract", ['RootSim.GenModelContract.genmodel_V2s','RootSim.GenModelContract.genmodel_V2','RootSim.GenModelContract.genmodel_fwd_V2','RootSim.GenModelContract.genmodel_fwd_not_V2s','RootSim.GenModelContract.genmodel_not_V2','RootSim.GenModelContract.genmodel_not_V2s','RootSim.GenModelContract.genmodel_V2s_Statement_false','RootSim.GenModelContract.genmodel_unrelativised_counterexamples','RootSim.GenModelContract.relativised_iff_clamp','RootSim.GenModelContract.runs_are_clamped_runs','RootSim.GenModelContract.v2sOn_tw_equals_sequential','RootSim.GenModelContract.v2On_tw_equals_sequential_D','RootSim.GenModelContract.genmodel_tw_equals_sequential','RootSim.GenModelContract.genmodel_tw_quiescent_final','RootSim.GenModelContract.genmodel_fwd_tw_equals_sequential_D','RootSim.GenModelContract.genmodel_fwd_tw_quiescent_final_D'])
     # LP-local simulation theorem: every branch of the concrete LP step function (LPFull.step) is ONE action of the abstract machine
     # (or a stutter), with exact bag bookkeeping (Props/C01Refine.lean); the run-time twshadow check below is its instance on real traces
     runlib.lean_part(ctx, "RootSim.Props.C01Refine", ['RootSim.C01Refine.step_preserves_rinv','RootSim.C01Refine.plain_step_refines_exec','RootSim.C01Refine.anti_step_refines_antiRollback','RootSim.C01Refine.discard_steps_refine_annihilate','RootSim.C01Refine.lp_step_refines_tw','RootSim.C01Refine.lp_step_keeps_reachable','RootSim.C01Refine.checkpoint_refines_stutter','RootSim.C01Refine.fossil_refines_stutter','RootSim.C01Refine.cmpOk_is_needed','RootSim.Refine.cmpOk_of_content'])
